@@ -101,6 +101,13 @@ def decide_on_representatives(repo, fi, name):
     return False, f"{name}{tuple(args)!r:.120} gives {got!r:.160}, the specification {want!r:.160}"
 
 
+def load_interrupted(chk, repo):
+    """C01-R13: a load during which one request fails raises or returns exactly the selected lines (vlib/loadmodel.py with a failing
+    request injected)"""
+    from .load_rules import fault_rules
+    fault_rules(chk, repo, "C01-R13")
+
+
 def load_rows(chk, repo):
     """C01-R10: a pixel load evaluated on model images (vlib/loadmodel.py): every output row is decoded from exactly the sample
     bytes of its own line, for every selection, line count and records_per_chunk of the grid"""
@@ -171,6 +178,7 @@ def run(chk, repo):
     chk.attempt(open_array, chk, repo)
     chk.attempt(r6_wiring, chk, repo, L, covered_by="open_array", rules=("C01-R6",))
     chk.attempt(load_rows, chk, repo)
+    chk.attempt(load_interrupted, chk, repo)
     chk.attempt(r7, chk, repo, covered_by="load_rows", rules=("C01-R7",))
     chk.attempt(r8, chk, repo, covered_by="load_rows", rules=("C01-R8",))
     chk.count("functions", 20)
